@@ -227,6 +227,6 @@ META = {
              'enumerates every session up to the bound with failures at every chosen position and checks that the state always equals the replay of the surviving cells. Every '
              'session is run in pytezos twice (with and without its failing cells) and compared after every surviving cell, and against the model at the end.'),
     'design_ref': 'DESIGN.md section 5 C22, A.4',
-    'note': 'Trusted: abstraction of stack items (C22.py item_abs), cell texts. Bounds: 3 (4) cells, at most 2 failing cells, failure positions {first, middle, last}, stack <= 3; sessions of the maximal length are replayed as a seeded 1/4 (1/5) sample, shorter ones exhaustively.',
+    'note': 'Trusted: abstraction of stack items (C22.py item_abs), cell texts. Bounds: 13 cell kinds (incl. a sapling state), 7 failure styles (incl. an unimplemented primitive), 3 (4) cells, at most 2 failing cells, failure positions {first, middle, last}, stack <= 3; sessions of the maximal length are replayed as a seeded 1/4 (1/5) sample, shorter ones exhaustively.',
     'technique': 'TLA+ session model with rollback action property, TLC exhaustive; differential replay of sessions with/without failing cells in the real Interpreter + comparison with the model',
 }
